@@ -1264,6 +1264,18 @@ func (fx *Fx) specBuiltin(st *State, call *ast.CallExpr) ([]Val, bool) {
 			panic(unsupported("hastype " + name))
 		}
 		return boolV(and(not(app("=", a.X, "nil")), app("=", app("dyntype", a.X), fmt.Sprint(fx.v.typeID(t))))), true
+	case "scsplitis":
+		// scsplitis(sc, "pkg.Recv.Func"): the scanner's split function is that function
+		a := fx.eval(st, call.Args[0], true)
+		lit, ok := ast.Unparen(call.Args[1]).(*ast.BasicLit)
+		if !ok {
+			panic(unsupported("scsplitis needs a function key literal"))
+		}
+		key, _ := strconv.Unquote(lit.Value)
+		return boolV(app("=", app("select", fx.heapTerm(st, "ghost_scsplitfn", SInt), a.X), fmt.Sprint(fx.v.fnID(key)))), true
+	case "scsplitrecv":
+		a := fx.eval(st, call.Args[0], true)
+		return []Val{{T: types.Typ[types.UnsafePointer], S: SRef, X: app("select", fx.heapTerm(st, "ghost_scsplitrecv", SRef), a.X)}}, true
 	case "scmax":
 		a := fx.eval(st, call.Args[0], true)
 		return intV(app("sc_max", fx.scannerCell(st, a.X))), true
